@@ -8,6 +8,7 @@ import (
 	"fmt"
 	"math/big"
 	"sort"
+	"strings"
 	"time"
 
 	tmproto "github.com/tendermint/tendermint/proto/tendermint/types"
@@ -201,7 +202,13 @@ func judge(m *clientModel, c *cpty, hdr *xtm.Header, tr truth, now time.Time) ve
 	}
 
 	if ph.ChainID != fmt.Sprintf("%s-%d", m.base, hrev) {
-		soft("other-chain-id")
+		if !strings.HasPrefix(ph.ChainID, m.base+"-") && ph.ChainID != m.base {
+			// a header of ANOTHER chain (whoever signed it, and for whichever chain id): the client follows one chain,
+			// "signed it" can only mean a commit for a header of that chain
+			rej("header-of-another-chain")
+		} else {
+			soft("other-chain-id")
+		}
 	}
 	for _, a := range tr.anomalies {
 		soft(a)
